@@ -15,7 +15,7 @@
     Tolerances and why they cannot fire on a correct tree: design.d/C14.md. *)
 From Coq Require Import List ZArith NArith Floats Bool.
 Import ListNotations.
-Require Import Clarabel.Base.Ops Clarabel.Base.Dyadic Clarabel.Nonsym.Model Clarabel.Nonsym.FloatTrans.
+Require Import Clarabel.Base.Ops Clarabel.Base.Dyadic Clarabel.Cones.Step Clarabel.Nonsym.Model Clarabel.Nonsym.FloatTrans.
 
 Definition ofb (b : bool) : N := if b then 0%N else 1%N.
 Definition maxl (l : list N) : N := fold_left N.max l 0%N.
@@ -297,3 +297,55 @@ Definition c_gp_gradp_model (tol : float) (al u w stored_r gu gw : list float) :
   let '(mu_, mw_) := gp_gradient_primal_F4 TOpsF stored_r al u w in
   ofb (Nat.eqb (length gu) (length mu_) && Nat.eqb (length gw) (length mw_)
        && alll (rclose tol) (mu_ ++ mw_) (gu ++ gw)).
+
+(** ** backtrack_search (model: Cones/Step.v [backtrack]) driven by the cones' own membership
+    predicates: the Rust result equals the model's (the sequence alpha *= step is exact in both),
+    and is 0 or a feasible step.  kind: 0 exp primal, 1 exp dual, 2 pow primal, 3 pow dual *)
+Definition step3f (q dq : v3f) (a : float) : v3f :=
+  let '(q0, q1, q2) := q in let '(d0, d1, d2) := dq in (1 * q0 + a * d0, 1 * q1 + a * d1, 1 * q2 + a * d2).
+Definition bt_pred3 (kind : N) (al : float) (p : v3f) : bool :=
+  match kind with
+  | 0%N => exp_is_primal_feasible TOpsF p
+  | 1%N => exp_is_dual_feasible TOpsF p
+  | 2%N => pow_is_primal_feasible TOpsF al p
+  | _ => pow_is_dual_feasible TOpsF al p
+  end.
+Definition bt_ok (inc : float -> bool) (a0 amin step r : float) : N :=
+  match backtrack OpsF 20000 inc a0 amin step with
+  | Some m => ofb (feq m r && (feq r 0 || inc r))
+  | None => 1%N
+  end.
+Definition c_bt3 (kind : N) (al : float) (q dq : v3f) (a0 amin step r : float) : N :=
+  bt_ok (fun a => bt_pred3 kind al (step3f q dq a)) a0 amin step r.
+Definition steplf (q dq : list float) (a : float) : list float :=
+  map (fun p => 1 * fst p + a * snd p) (combine q dq).
+Definition c_bt_gp (dual : bool) (al u du w dw : list float) (a0 amin step r : float) : N :=
+  bt_ok (fun a => if dual then gp_is_dual_feasible TOpsF al (steplf u du a) (steplf w dw a)
+                  else gp_is_primal_feasible TOpsF al (steplf u du a) (steplf w dw a)) a0 amin step r.
+
+(** genpow update_scaling verdict: true exactly when the model accepts; on refusal the stored
+    state must be unchanged (reported by the harness) *)
+Definition c_gp_scaling_verdict (al u w : list float) (mu : float) (ok unchanged : bool) : N :=
+  match gp_update_scaling TOpsF al u w mu with
+  | Some _ => ofb ok
+  | None => ofb (negb ok && unchanged)
+  end.
+
+(** ** badly balanced pairs: Hs(lam s, z/lam) = lam^2 Hs(s, z) for lam a power of two (exact
+    scaling of the inputs), and strict definiteness of both matrices: the leading minors,
+    evaluated exactly, exceed 2^-k times the product of the diagonal entries involved. *)
+Definition spd_strict (k : Z) (H : s3f) : bool :=
+  match f2d (m00 H), f2d (m01 H), f2d (m11 H), f2d (m02 H), f2d (m12 H), f2d (m22 H) with
+  | Some a, Some b, Some c, Some d, Some e, Some f =>
+    let minor2 := dsub (dmul a c) (dmul b b) in
+    let det := dadd (dsub (dmul a (dsub (dmul c f) (dmul e e)))
+                          (dmul b (dsub (dmul b f) (dmul e d))))
+                    (dmul d (dsub (dmul b e) (dmul c d))) in
+    dltb d0 a && dltb d0 c && dltb d0 f
+    && dltb (dmul (dtol k) (dmul a c)) minor2 && dltb (dmul (dtol k) (dmul a (dmul c f))) det
+  | _, _, _, _, _, _ => false
+  end.
+Definition c_scaling_cov (tol lam : float) (k : Z) (Hs1 Hs2 : s3f) : N :=
+  let l2 := lam * lam in
+  let scaled := S3 (l2 * m00 Hs1) (l2 * m01 Hs1) (l2 * m11 Hs1) (l2 * m02 Hs1) (l2 * m12 Hs1) (l2 * m22 Hs1) in
+  ofb (close6 tol (sig3 scaled) scaled Hs2 && spd_strict k Hs1 && spd_strict k Hs2).
